@@ -176,12 +176,97 @@ inductive Event where
   | recovered (n t : Nat)                           -- the recovery handler of notifier n got the panic of target t
 deriving DecidableEq
 
-/-- `notifyTarget`: the call, and (deferred `errs.Recovery`) the report if the target panicked; the caller's loop goes on -/
+/-! ### delivery with Go's panic semantics
+
+`notifyTarget` / `notifyBatchTarget` are Go functions with `defer errs.Recovery(n.recoveryHandler)`; the loops
+`for _, target := range list { n.notifyTarget(…) }` are ordinary sequencing: a panic that leaves a frame unrecovered
+skips the rest of the caller's statements.  `Run` is a piece of Go code executed: what it made observable and whether it
+returned or is still panicking. -/
+
+/-- the recovery handler a notifier was created with (`New(handler)`) -/
+inductive Handler where
+  | absent    -- `New(nil)`: panics are swallowed silently
+  | good      -- records the report and returns
+  | bad       -- records the report and then panics itself
+deriving DecidableEq
+
+/-- the harness' table: notifier 1 has a handler that panics, notifier 2 has none (fixed per notifier, like
+    `batchCapable` per target; no theorem depends on the table) -/
+def handlerKind (n : Nat) : Handler := if n = 1 then .bad else if n = 2 then .absent else .good
+
+structure Run where
+  /-- the calls made, oldest first -/
+  trace : List Event
+  /-- `none`: returned normally; `some v`: a panic with value `v` is propagating out of this code -/
+  out : Option Nat
+deriving DecidableEq
+
+def Run.skip : Run := ⟨[], none⟩
+
+/-- `a; b`: if `a` panics, `b` is not executed -/
+def Run.seq (a b : Run) : Run :=
+  match a.out with
+  | none => ⟨a.trace ++ b.trace, b.out⟩
+  | some _ => a
+
+/-- a function frame with one deferred call.  The body runs; then the deferred function runs, ALWAYS, and is given the
+    pending panic of the body (what `recover()` would return); the frame ends the way the deferred function says:
+    `none` if nothing is panicking any more, `some v` if a panic (the old one, not recovered, or a new one) goes on to the
+    caller. -/
+def frame (body : Run) (deferred : Option Nat → Run) : Run :=
+  ⟨body.trace ++ (deferred body.out).trace, (deferred body.out).out⟩
+
+/-- calling a method of a target: the call is observed, then the target returns or panics (value: its id) -/
+def callTarget (pan : Nat → Bool) (e : Event) (t : Nat) : Run := ⟨[e], if pan t then some t else none⟩
+
+/-- calling the recovery handler with the error made from the panic of target `t` -/
+def callHandler (h : Handler) (n t : Nat) : Run :=
+  match h with
+  | .good => ⟨[Event.recovered n t], none⟩
+  | .bad => ⟨[Event.recovered n t], some 0⟩
+  | .absent => Run.skip
+
+/-- `errs.Recovery(nil)` as a deferred call: `recover()` stops whatever is panicking, nothing else happens -/
+def recoveryNil (_ : Option Nat) : Run := Run.skip
+
+/-- `errs.Recovery(handler)` as a deferred call (`p` = the pending panic): `recover()` is called unconditionally, so the
+    panic stops here; if there was one and a handler exists, the handler is called inside a frame that has
+    `defer Recovery(nil)` ("guard against a bad handler implementation") -/
+def recovery (h : Handler) (n t : Nat) (p : Option Nat) : Run :=
+  match p with
+  | none => Run.skip
+  | some _ => if h = .absent then Run.skip else frame (callHandler h n t) recoveryNil
+
+/-- `func (n *Notifier) notifyTarget(…) { defer errs.Recovery(n.recoveryHandler); target.HandleNotification(…) }` -/
+def notifyTargetX (pan : Nat → Bool) (n : Nat) (name : Name) (d : Int × Nat) : Run :=
+  frame (callTarget pan (Event.handle n d.2 name d.1) d.2) (recovery (handlerKind n) n d.2)
+
+/-- `func (n *Notifier) notifyBatchTarget(…) { defer errs.Recovery(n.recoveryHandler); target.BatchMode(start) }` -/
+def notifyBatchTargetX (pan : Nat → Bool) (n : Nat) (start : Bool) (t : Nat) : Run :=
+  frame (callTarget pan (Event.batchMode n t start) t) (recovery (handlerKind n) n t)
+
+/-- `for _, x := range xs { f(x) }` -/
+def loopX {α : Type} (f : α → Run) : List α → Run
+  | [] => Run.skip
+  | x :: xs => (f x).seq (loopX f xs)
+
+def deliverX (pan : Nat → Bool) (n : Nat) (name : Name) (ds : List (Int × Nat)) : Run :=
+  loopX (notifyTargetX pan n name) ds
+
+def batchX (pan : Nat → Bool) (n : Nat) (start : Bool) (ts : List Nat) : Run :=
+  loopX (notifyBatchTargetX pan n start) ts
+
+/-! the same traces in closed form (what `deliverX` / `batchX` make observable when no frame lets a panic out — which
+    is always: `Nt.deliverX_spec`) -/
+
+/-- does the recovery handler of notifier `n` see reports -/
+def reports? (n : Nat) : Bool := handlerKind n != .absent
+
 def notifyTarget (pan : Nat → Bool) (n : Nat) (name : Name) (d : Int × Nat) : List Event :=
-  if pan d.2 then [Event.handle n d.2 name d.1, Event.recovered n d.2] else [Event.handle n d.2 name d.1]
+  if pan d.2 && reports? n then [Event.handle n d.2 name d.1, Event.recovered n d.2] else [Event.handle n d.2 name d.1]
 
 def notifyBatchTarget (pan : Nat → Bool) (n : Nat) (start : Bool) (t : Nat) : List Event :=
-  if pan t then [Event.batchMode n t start, Event.recovered n t] else [Event.batchMode n t start]
+  if pan t && reports? n then [Event.batchMode n t start, Event.recovered n t] else [Event.batchMode n t start]
 
 def deliverAll (pan : Nat → Bool) (n : Nat) (name : Name) (ds : List (Int × Nat)) : List Event :=
   ds.flatMap (notifyTarget pan n name)
@@ -189,15 +274,16 @@ def deliverAll (pan : Nat → Bool) (n : Nat) (name : Name) (ds : List (Int × N
 def batchAll (pan : Nat → Bool) (n : Nat) (start : Bool) (ts : List Nat) : List Event :=
   ts.flatMap (notifyBatchTarget pan n start)
 
+/-- one exported call; the events are the trace of the delivery loops executed with the panic semantics above -/
 def step (pan : Nat → Bool) (w : World) : Op → World × List Event
   | .register n t p raws => (w.set n (register (w n) t p raws), [])
   | .unregister n t => (w.set n (unregister (w n) t), [])
   | .merge n m => if n = m then (w, []) else (w.set n (mergeFrom (w n) (w m)), [])
   | .setEnabled n b => (w.set n (setEnabled (w n) b), [])
   | .reset n => (w.set n (reset (w n)), [])
-  | .startBatch n => (w.set n (startBatch (w n)).1, batchAll pan n true (startBatch (w n)).2)
-  | .endBatch n => (w.set n (endBatch (w n)).1, batchAll pan n false (endBatch (w n)).2)
-  | .notify n raw => (w, deliverAll pan n (normalize raw) (notify (w n) raw))
+  | .startBatch n => (w.set n (startBatch (w n)).1, (batchX pan n true (startBatch (w n)).2).trace)
+  | .endBatch n => (w.set n (endBatch (w n)).1, (batchX pan n false (endBatch (w n)).2).trace)
+  | .notify n raw => (w, (deliverX pan n (normalize raw) (notify (w n) raw)).trace)
 
 /-- run a history from the initial world; all events in order -/
 def runFrom (pan : Nat → Bool) (w : World) : List Op → World × List Event
